@@ -15,7 +15,15 @@
    run loop is left: exit requested by any thread, or a back-end error).
 
    on_wake is modelled in the REPAIRED form (fixes/C14-add-ctx-failure.patch): a failed
-   muggle_evloop_add_ctx releases the context and does not announce it. *)
+   muggle_evloop_add_ctx releases the context and does not announce it.
+
+   The wake-up protocol between muggle_socket_evloop_add_ctx (enqueue under handle->mtx, THEN
+   muggle_evloop_wakeup = write to the event signal) and the back-ends' *_handle_wakeup
+   (muggle_ev_signal_clearup = read of the event signal, THEN cb_wake = on_wake draining the
+   queue under handle->mtx) is part of the system: [wsig] is the event signal (eventfd counter
+   > 0), [sigdue] the hand-overs that have enqueued and not yet signalled, [ESigClear] /
+   [ETauWakeBegin] the two halves of *_handle_wakeup in the order of the code, [ESleep] the
+   back-end's wait finding nothing ready. *)
 From MV Require Import C04.Model.
 Local Open Scope Z_scope.
 
@@ -89,12 +97,13 @@ Definition w_wfin (x : ctx) (n : nat) : ctx :=
 Definition w_got (x : ctx) (g : list Z) (e : bool) : ctx :=
   mkctx (k_kind x) (k_conn x) (k_ref x) (k_loc x) (k_flag x) (k_fd x) (k_freed x) (k_work x) (k_wfin x)
         g e (k_pub x) (k_ann x) (k_ncl x) (k_nrel x) (k_nfdc x) (k_nfree x) (k_uar x).
-Definition w_announce (x : ctx) (n : nat) : ctx :=
+(* [cb]: the user callback of this point is installed (otherwise the handle does the same, silently) *)
+Definition w_announce (x : ctx) (n : nat) (cb : bool) : ctx :=
   mkctx (k_kind x) n (k_ref x) LReg (k_flag x) (k_fd x) (k_freed x) (k_work x) (k_wfin x)
-        (k_got x) (k_eof x) true (S (k_ann x)) (k_ncl x) (k_nrel x) (k_nfdc x) (k_nfree x) (k_uar x).
-Definition w_closecb (x : ctx) : ctx :=
+        (k_got x) (k_eof x) true (if cb then S (k_ann x) else k_ann x) (k_ncl x) (k_nrel x) (k_nfdc x) (k_nfree x) (k_uar x).
+Definition w_closecb (x : ctx) (cb : bool) : ctx :=
   mkctx (k_kind x) (k_conn x) (k_ref x) LRelDue (k_flag x) (k_fd x) (k_freed x) (k_work x) (k_wfin x)
-        (k_got x) (k_eof x) (k_pub x) (k_ann x) (S (k_ncl x)) (k_nrel x) (k_nfdc x) (k_nfree x) (k_uar x).
+        (k_got x) (k_eof x) (k_pub x) (k_ann x) (if cb then S (k_ncl x) else k_ncl x) (k_nrel x) (k_nfdc x) (k_nfree x) (k_uar x).
 Definition w_relcb (x : ctx) : ctx :=     (* the release callback / duty ran *)
   mkctx (k_kind x) (k_conn x) (k_ref x) (k_loc x) (k_flag x) (k_fd x) (k_freed x) (k_work x) (k_wfin x)
         (k_got x) (k_eof x) (k_pub x) (k_ann x) (k_ncl x) (S (k_nrel x)) (k_nfdc x) (k_nfree x) (k_uar x).
@@ -130,8 +139,8 @@ Definition l_reg_wake (x : ctx) (ok : bool) : option ctx :=
 Definition l_reg_acc (x : ctx) (ok : bool) : option ctx :=
   if loc_eqb (k_loc x) LAccNew then Some (w_loc (touch x) (if ok then LRegNew else LAccFail)) else None.
 (* cb_conn / cb_add_ctx *)
-Definition l_announce (x : ctx) (n : nat) : option ctx :=
-  if loc_eqb (k_loc x) LRegNew then Some (w_announce (touch x) n) else None.
+Definition l_announce (x : ctx) (n : nat) (cb : bool) : option ctx :=
+  if loc_eqb (k_loc x) LRegNew then Some (w_announce (touch x) n cb) else None.
 (* cb_msg entry; also the other loop-thread uses inside callbacks *)
 Definition l_use (x : ctx) : option ctx :=
   if loc_eqb (k_loc x) LReg then Some (touch x) else None.
@@ -151,8 +160,8 @@ Definition l_accepterr (x : ctx) : option ctx :=
   | KConn => None
   end.
 (* back-end sees CLOSED (or HUP/ERR): cb_close, then release_ctx is entered *)
-Definition l_close (x : ctx) (hup : bool) : option ctx :=
-  if (loc_eqb (k_loc x) LReg && (k_flag x || hup))%bool then Some (w_closecb (touch x)) else None.
+Definition l_close (x : ctx) (hup : bool) (cb : bool) : option ctx :=
+  if (loc_eqb (k_loc x) LReg && (k_flag x || hup))%bool then Some (w_closecb (touch x) cb) else None.
 (* on_clear for a node of ctx_list / on_exit for the queue head: release_ctx is entered *)
 Definition l_clearpop (x : ctx) : option ctx :=
   if loc_eqb (k_loc x) LReg then Some (w_loc (touch x) LRelDue) else None.
@@ -216,6 +225,7 @@ Inductive spc :=
   | PAccFree (c : nat)             (*   add_ctx failed, cb_free due *)
   | PAccClose (c : nat)            (*   freed, close(fd) due *)
   | PAccNoAlloc                    (*   cb_alloc returned NULL, close(fd) due *)
+  | PWakeClr                       (* *_handle_wakeup: muggle_ev_signal_clearup done, cb_wake = on_wake due (mutex not taken yet) *)
   | PWake                          (* on_wake: handle->mtx held, at the head of the while loop over ctx_queue *)
   | PWakeReg (c : nat)             (* on_wake: add_ctx ok, cb_add_ctx due *)
   | PWakeCb                        (* on_wake: queue drained, mutex released, cb_wake due *)
@@ -224,6 +234,16 @@ Inductive spc :=
   | PRelFree (c : nat) (k : cont)  (*   closed, cb_free due *)
   | PFin                           (* on_exit drained the queue; muggle_evloop_run returns *)
   | PDone.
+
+(* Which optional callbacks of muggle_socket_evloop_handle_t the application has installed.  The handle does
+   the same thing at every point whether or not the callback is there (if (handle->cb_x) handle->cb_x(...));
+   what differs is what the application is told: [k_ann] counts cb_conn / cb_add_ctx invocations, [k_ncl]
+   cb_close invocations, cb_msg is entered only when installed (otherwise on_read's default loop reads and
+   discards: [k_got] are the bytes the loop side has read, handed to cb_msg when it exists); the release
+   point ([k_nrel], cb_release if installed) and the end of on_wake (cb_wake if installed) are points of the
+   handle's own code.  cb_alloc / cb_free always exist (defaults installed by handle_init). *)
+Record cbflags := mkcb { f_conn : bool; f_msg : bool; f_close : bool; f_release : bool; f_addctx : bool; f_wake : bool }.
+Definition all_cb : cbflags := mkcb true true true true true true.
 
 Record sys := mksys {
   ctxs : list ctx;            (* by id = allocation order *)
@@ -234,9 +254,13 @@ Record sys := mksys {
   reg : list nat;             (* evloop->ctx_list *)
   clr : list nat;             (* nodes of ctx_list on_clear has still to visit *)
   pc : spc;
+  wsig : bool;                 (* evloop->ev_signal is readable (eventfd counter > 0): a wake-up is pending *)
+  sigdue : list nat;          (* hand-overs between their enqueue and their muggle_evloop_wakeup *)
+  cbs : cbflags;              (* configuration: constant *)
 }.
 
-Definition init : sys := mksys [] (fun _ => []) (fun _ => false) (fun _ => false) [] [] [] PIdle.
+Definition initf (f : cbflags) : sys := mksys [] (fun _ => []) (fun _ => false) (fun _ => false) [] [] [] PIdle false [] f.
+Definition init : sys := initf all_cb.
 
 Fixpoint put (l : list ctx) (c : nat) (x : ctx) : list ctx :=
   match l, c with
@@ -246,13 +270,16 @@ Fixpoint put (l : list ctx) (c : nat) (x : ctx) : list ctx :=
   end.
 
 Definition with_ctx (s : sys) (c : nat) (x : ctx) : sys :=
-  mksys (put (ctxs s) c x) (sent s) (pclosed s) (preset s) (queue s) (reg s) (clr s) (pc s).
+  mksys (put (ctxs s) c x) (sent s) (pclosed s) (preset s) (queue s) (reg s) (clr s) (pc s) (wsig s) (sigdue s) (cbs s).
 Definition with_pc (s : sys) (p : spc) : sys :=
-  mksys (ctxs s) (sent s) (pclosed s) (preset s) (queue s) (reg s) (clr s) p.
+  mksys (ctxs s) (sent s) (pclosed s) (preset s) (queue s) (reg s) (clr s) p (wsig s) (sigdue s) (cbs s).
 Definition with_lists (s : sys) (q r cl : list nat) : sys :=
-  mksys (ctxs s) (sent s) (pclosed s) (preset s) q r cl (pc s).
+  mksys (ctxs s) (sent s) (pclosed s) (preset s) q r cl (pc s) (wsig s) (sigdue s) (cbs s).
 Definition add_ctx (s : sys) (x : ctx) : sys :=
-  mksys (ctxs s ++ [x]) (sent s) (pclosed s) (preset s) (queue s) (reg s) (clr s) (pc s).
+  mksys (ctxs s ++ [x]) (sent s) (pclosed s) (preset s) (queue s) (reg s) (clr s) (pc s) (wsig s) (sigdue s) (cbs s).
+Definition with_sig (s : sys) (b : bool) (d : list nat) : sys :=
+  mksys (ctxs s) (sent s) (pclosed s) (preset s) (queue s) (reg s) (clr s) (pc s) b d (cbs s).
+Definition mem_nat (c : nat) (l : list nat) : bool := existsb (Nat.eqb c) l.
 
 Fixpoint remove_nat (c : nat) (l : list nat) : list nat :=
   match l with
@@ -263,7 +290,7 @@ Fixpoint remove_nat (c : nat) (l : list nat) : list nat :=
 Definition spc_eqb (a b : spc) : bool :=
   match a, b with
   | PIdle, PIdle | PAccFd, PAccFd | PAccNoAlloc, PAccNoAlloc | PFin, PFin | PDone, PDone
-  | PWake, PWake | PWakeCb, PWakeCb => true
+  | PWake, PWake | PWakeCb, PWakeCb | PWakeClr, PWakeClr => true
   | PAccAlloc c, PAccAlloc d | PAccReg c, PAccReg d | PAccFree c, PAccFree d | PAccClose c, PAccClose d
   | PWakeReg c, PWakeReg d => Nat.eqb c d
   | _, _ => false
@@ -330,8 +357,14 @@ Inductive ev :=
   | EWake                               (* cb_wake: on_wake is over *)
   (* silent *)
   | ETauRel | ETauBreak
-  | ETauWakeBegin                       (* the wake-up signal is dispatched: on_wake locks handle->mtx *)
-  | ETauWakeUnlock.                     (* while (queue size > 0) ends: the mutex is released *)
+  | ETauWakeBegin                       (* cb_wake = on_wake is entered after the clear-up: it locks handle->mtx *)
+  | ETauWakeUnlock                      (* while (queue size > 0) ends: the mutex is released *)
+  (* the event signal *)
+  | ESigHand (c : nat)                  (* muggle_socket_evloop_add_ctx, after the enqueue: muggle_evloop_wakeup *)
+  | ESigw                               (* muggle_evloop_wakeup by anyone else (muggle_evloop_exit, a plain wake-up) *)
+  | ESigClear                           (* the back-end reported the signal readable: *_handle_wakeup runs
+                                           muggle_ev_signal_clearup; cb_wake is due (a spurious report is allowed) *)
+  | ESleep.                             (* the back-end's wait finds nothing ready: the loop thread blocks *)
 
 Fixpoint prefix_eqb (a b : list Z) : bool :=     (* a is a prefix of b *)
   match a, b with
@@ -352,6 +385,13 @@ Definition wake_locked (p : spc) : bool :=
   | _ => false
   end.
 
+(* on_exit holds handle->mtx from its first look at the queue to the end of its while loop *)
+Definition exit_locked (p : spc) : bool :=
+  match p with
+  | PRel _ KExit | PRelClose _ KExit | PRelFree _ KExit => true
+  | _ => false
+  end.
+
 (* user callbacks run from the dispatch loop or, for cb_add_ctx, from inside on_wake *)
 Definition in_callback (p : spc) : bool := match p with PIdle | PWake => true | _ => false end.
 
@@ -369,19 +409,22 @@ Definition step (s : sys) (e : ev) : option (sys * Z) :=
   match e with
   | EHalloc kd n => Some (add_ctx s (new_ctx kd n LUser true), 0)
   | EHand c =>
-    (* outside the property once on_exit has drained the queue *)
-    if (not_finished (pc s) && negb (wake_locked (pc s)))%bool then
+    (* blocked while on_wake / on_exit holds the mutex; outside the property once on_exit has drained the
+       queue (the context then stays queued and is still the caller's) *)
+    if (not_finished (pc s) && negb (wake_locked (pc s)) && negb (exit_locked (pc s)))%bool then
       ret0 (match on_ctx s c l_hand with
-            | Some s1 => Some (with_lists s1 (queue s1 ++ [c]) (reg s1) (clr s1))
+            | Some s1 => Some (with_sig (with_lists s1 (queue s1 ++ [c]) (reg s1) (clr s1)) (wsig s1) (sigdue s1 ++ [c]))
             | None => None end)
     else None
   | ESend n bs =>
     if pclosed s n then None
-    else Some (mksys (ctxs s) (upd (sent s) n (sent s n ++ bs)) (pclosed s) (preset s) (queue s) (reg s) (clr s) (pc s), 0)
+    else Some (mksys (ctxs s) (upd (sent s) n (sent s n ++ bs)) (pclosed s) (preset s) (queue s) (reg s) (clr s) (pc s)
+                     (wsig s) (sigdue s) (cbs s), 0)
   | EPclose n =>
-    Some (mksys (ctxs s) (sent s) (upd (pclosed s) n true) (preset s) (queue s) (reg s) (clr s) (pc s), 0)
+    Some (mksys (ctxs s) (sent s) (upd (pclosed s) n true) (preset s) (queue s) (reg s) (clr s) (pc s) (wsig s) (sigdue s) (cbs s), 0)
   | EPreset n =>
-    Some (mksys (ctxs s) (sent s) (upd (pclosed s) n true) (upd (preset s) n true) (queue s) (reg s) (clr s) (pc s), 0)
+    Some (mksys (ctxs s) (sent s) (upd (pclosed s) n true) (upd (preset s) n true) (queue s) (reg s) (clr s) (pc s)
+                (wsig s) (sigdue s) (cbs s), 0)
   | EWshut c => ret0 (on_ctx s c l_wshut)
   | EWrel c => on_ctx_r s c l_wrel
   | EWrelease c => ret0 (on_ctx s c l_wrelease)
@@ -413,7 +456,7 @@ Definition step (s : sys) (e : ev) : option (sys * Z) :=
   | EAddctx c =>
     if spc_eqb (pc s) (PWakeReg c) then
       ret0 (match nth_error (ctxs s) c with
-            | Some x => match on_ctx s c (fun x => l_announce x (k_conn x)) with
+            | Some x => match on_ctx s c (fun x => l_announce x (k_conn x) (f_addctx (cbs s))) with
                         | Some s1 => Some (with_pc s1 PWake) | None => None end
             | None => None end)
     else None
@@ -426,7 +469,7 @@ Definition step (s : sys) (e : ev) : option (sys * Z) :=
     then Some (with_pc (add_ctx s (new_ctx KConn 0 LAccNew false)) (PAccAlloc c), 0) else None
   | EConn c n =>
     if spc_eqb (pc s) (PAccReg c) then
-      ret0 (match on_ctx s c (fun x => l_announce x n) with
+      ret0 (match on_ctx s c (fun x => l_announce x n (f_conn (cbs s))) with
             | Some s1 => Some (with_pc s1 PIdle) | None => None end)
     else None
   | EFree c =>
@@ -453,7 +496,7 @@ Definition step (s : sys) (e : ev) : option (sys * Z) :=
       else ret0 (on_ctx s c l_fdclose_w)
     | _ => ret0 (on_ctx s c l_fdclose_w)
     end
-  | EMsg c => if spc_eqb (pc s) PIdle then ret0 (on_ctx s c l_use) else None
+  | EMsg c => if (spc_eqb (pc s) PIdle && f_msg (cbs s))%bool then ret0 (on_ctx s c l_use) else None
   | ERd c bs =>
     if spc_eqb (pc s) PIdle then
       match nth_error (ctxs s) c with
@@ -479,7 +522,7 @@ Definition step (s : sys) (e : ev) : option (sys * Z) :=
     if spc_eqb (pc s) PIdle then
       match nth_error (ctxs s) c with
       | Some x =>
-        ret0 (match on_ctx s c (fun x => l_close x (hup_only s x)) with
+        ret0 (match on_ctx s c (fun x => l_close x (hup_only s x) (f_close (cbs s))) with
               | Some s1 => Some (with_pc (with_lists s1 (queue s1) (remove_nat c (reg s1)) (clr s1)) (PRel c KIdle))
               | None => None end)
       | None => None
@@ -509,12 +552,20 @@ Definition step (s : sys) (e : ev) : option (sys * Z) :=
     if spc_eqb (pc s) PIdle then ret0 (enter_clear (with_lists s (queue s) [] (reg s))) else None
   | EExitreq => Some (s, 0)
   | EReturned => if spc_eqb (pc s) PFin then Some (with_pc s PDone, 0) else None
-  | ETauWakeBegin => if spc_eqb (pc s) PIdle then Some (with_pc s PWake, 0) else None
+  | ETauWakeBegin => if spc_eqb (pc s) PWakeClr then Some (with_pc s PWake, 0) else None
   | ETauWakeUnlock =>
     if spc_eqb (pc s) PWake then
       match queue s with [] => Some (with_pc s PWakeCb, 0) | _ :: _ => None end
     else None
   | EWake => if spc_eqb (pc s) PWakeCb then Some (with_pc s PIdle, 0) else None
+  | ESigHand c =>
+    if mem_nat c (sigdue s) then Some (with_sig s true (remove_nat c (sigdue s)), 0) else None
+  | ESigw => Some (with_sig s true (sigdue s), 0)
+  | ESigClear =>
+    (* clear-up first, the wake callback afterwards: whatever is enqueued and signalled after this
+       read finds the signal set again; whatever was enqueued before it is seen by on_wake *)
+    if spc_eqb (pc s) PIdle then Some (with_pc (with_sig s false (sigdue s)) PWakeClr, 0) else None
+  | ESleep => if (spc_eqb (pc s) PIdle && negb (wsig s))%bool then Some (s, 0) else None
   end.
 
 (* a history: events that are not enabled are skipped, so every list is a history *)
@@ -545,10 +596,10 @@ Definition pinit (sz : nat) (scripts : nat -> list (list Z)) : pipe :=
 Inductive pev :=
   | PLock (w : nat)                  (* muggle_spinlock_lock succeeds *)
   | PWrite (w : nat) (n : nat)       (* write(2) accepted n bytes *)
-  | PWAgain (w : nat)                (* write(2): EAGAIN, block_write sleeps and retries *)
+  | PWAgain (w : nat)                (* write(2): EAGAIN / EINTR, block_write sleeps and retries *)
   | PUnlock (w : nat)                (* remain_bytes == 0: unlock, return *)
   | PRead (n : nat)                  (* read(2) returned n bytes *)
-  | PRAgain.                         (* read(2): EAGAIN (NULL if offset == 0, else retry) *)
+  | PRAgain.                         (* read(2): EAGAIN / EINTR (NULL if offset == 0, else retry) *)
 
 Definition pstep (s : pipe) (e : pev) : option pipe :=
   match e with
